@@ -524,7 +524,11 @@ def run(ctx):
                 ctx.violation("failing-input" if verdict == "failing" else "correspondence-broken", f"ctorx: {text}", detail)
     found = any(v["kind"] == "failing-input" for v in ctx.violations)
     if b["ok"] and tpl_err is None:
-        total += part_templates(ctx)
+        try:
+            total += part_templates(ctx)
+        except Exception as e:  # noqa
+            ctx.violation("correspondence-broken", "running the observed decoder templates in Coq failed",
+                          {"error": f"{type(e).__name__}: {e}"[:600]})
     if tpl_err is not None:
         ctx.violation("translator-rejected", "decoder template export: " + tpl_err, {"error": tpl_err})
     elif b["ok"] and not tie["ok"]:
